@@ -353,6 +353,9 @@ def _int(ex, st, args, kwargs, node):
 def _float(ex, st, args, kwargs, node):
     (x,) = args
     x = py_number(x)
+    from .values import NumStr
+    if isinstance(x, NumStr):
+        return to_real(x.term) if is_sym(x.term) else float(x.term)
     if not is_sym(x):
         try:
             return float(x)
@@ -370,6 +373,9 @@ def _bool(ex, st, args, kwargs, node):
 @intrinsic(str)
 def _str(ex, st, args, kwargs, node):
     (x,) = args
+    from .values import NumStr
+    if isinstance(x, NumStr):
+        return "<numeral>"
     if is_sym(x) or isinstance(x, (Ref, CellRef, Seq, Quantity)):
         return "<text>"      # opaque text (A5)
     return str(x)
